@@ -53,8 +53,8 @@ Proof.
 Qed.
 
 Lemma judge_block cc fs b body obs :
-  judge_stmt_r false cc fs (SBlock b body) obs =
-  let '(ok, rest, r) := judge_list_r false cc (fs ++ [b]) body obs in
+  judge_stmt_r true cc fs (SBlock b body) obs =
+  let '(ok, rest, r) := judge_list_r true cc (fs ++ [b]) body obs in
   (ok, rest, match b with BTry => None | _ => r end).
 Proof.
   cbn [judge_stmt_r].
@@ -63,14 +63,14 @@ Proof.
                 match l with
                 | [] => (true, obs, None)
                 | x :: l' =>
-                    let '(ok, rest, r) := judge_stmt_r false cc (fs ++ [b]) x obs in
+                    let '(ok, rest, r) := judge_stmt_r true cc (fs ++ [b]) x obs in
                     match r with
                     | Some _ => (ok, rest, r)
                     | None => let '(ok', rest', r') := go l' rest in (ok && ok', rest', r')
                     end
-                end) l o = judge_list_r false cc (fs ++ [b]) l o).
+                end) l o = judge_list_r true cc (fs ++ [b]) l o).
   { induction l as [|x l IH]; intros o; [reflexivity|]. cbn [judge_list_r].
-    destruct (judge_stmt_r false cc (fs ++ [b]) x o) as [[ok rest] r]. destruct r; [reflexivity|].
+    destruct (judge_stmt_r true cc (fs ++ [b]) x o) as [[ok rest] r]. destruct r; [reflexivity|].
     rewrite IH. reflexivity. }
   rewrite E. reflexivity.
 Qed.
@@ -185,7 +185,7 @@ Proof. reflexivity. Qed.
 
 (** * the model's calls are the composed ones, its exceptions the expected ones *)
 Lemma exec_judge cc : forall s fs tail,
-  judge_stmt_r false cc fs s (snd (fst (exec cc s (state_of fs))) ++ tail)
+  judge_stmt_r true cc fs s (snd (fst (exec cc s (state_of fs))) ++ tail)
   = (true, tail, snd (exec cc s (state_of fs))).
 Proof.
   unfold exec.
@@ -200,9 +200,9 @@ Proof.
   - rewrite exec_block, judge_block, push_state.
     assert (L : forall l fs0 tail0,
                Forall (fun s => forall fs tail,
-                         judge_stmt_r false cc fs s (snd (fst (exec_with clause_of cc s (state_of fs))) ++ tail)
+                         judge_stmt_r true cc fs s (snd (fst (exec_with clause_of cc s (state_of fs))) ++ tail)
                          = (true, tail, snd (exec_with clause_of cc s (state_of fs)))) l ->
-               judge_list_r false cc fs0 l (snd (fst (exec_list_with clause_of cc l (state_of fs0))) ++ tail0)
+               judge_list_r true cc fs0 l (snd (fst (exec_list_with clause_of cc l (state_of fs0))) ++ tail0)
                = (true, tail0, snd (exec_list_with clause_of cc l (state_of fs0)))).
     { induction l as [|x l IHl]; intros fs0 tail0 F; [reflexivity|].
       inversion F as [|? ? Hx Hl]; subst.
@@ -224,13 +224,13 @@ Lemma oxkind_eqb_refl r : oxkind_eqb r r = true.
 Proof. destruct r as [[]|]; reflexivity. Qed.
 
 Theorem program_meets_spec cc prog :
-  spec_ok_ctx_r false cc prog (snd (fst (run_program cc prog))) (fst (fst (run_program cc prog)))
+  spec_ok_ctx_r true cc prog (snd (fst (run_program cc prog))) (fst (fst (run_program cc prog)))
               (snd (run_program cc prog)) = true.
 Proof.
   unfold run_program , spec_ok_ctx_r.
   pose proof (program_restores cc prog c0) as R. unfold exec_list in *.
   assert (L : forall l tail,
-             judge_list_r false cc [] l (snd (fst (exec_list_with clause_of cc l c0)) ++ tail)
+             judge_list_r true cc [] l (snd (fst (exec_list_with clause_of cc l c0)) ++ tail)
              = (true, tail, snd (exec_list_with clause_of cc l c0))).
   { induction l as [|x l IHl]; intros tail; [reflexivity|].
     cbn [exec_list_with judge_list_r].
@@ -334,77 +334,4 @@ Proof.
   exists (mkCC (mkCfg (fun _ => None) ONone) "P:" ONone []),
          (mkKw (fun o => match o with Watchers => Some ONone | _ => None end) None []).
   vm_compute. repeat split; reflexivity.
-Qed.
-
-(** * the strict reading on whole programs *)
-Lemma readings_block c b body :
-  readings_agree_stmt c (SBlock b body) = forallb (readings_agree_stmt c) body.
-Proof.
-  cbn [readings_agree_stmt]. induction body as [|x l IH]; [reflexivity|]. cbn [forallb]. rewrite IH. reflexivity.
-Qed.
-
-Lemma judge_readings cc : forall s fs obs,
-  readings_agree_stmt (cc_run cc) s = true ->
-  judge_stmt_r true cc fs s obs = judge_stmt_r false cc fs s obs.
-Proof.
-  induction s as [c k f|c u k f|x|b body IH] using stmt_ind'; intros fs obs G.
-  - cbn [judge_stmt_r readings_agree_stmt] in *. destruct obs as [|o rest]; [reflexivity|].
-    rewrite spec_readings by assumption. reflexivity.
-  - cbn [judge_stmt_r readings_agree_stmt] in *. destruct obs as [|o rest]; [reflexivity|].
-    rewrite (spec_readings (cc_run cc) (cc_parent cc) _ (spec_sudo_kwargs (cc_run cc) k)); [reflexivity|].
-    exact G.
-  - reflexivity.
-  - rewrite readings_block in G.
-    assert (BL : forall st, judge_stmt_r st cc fs (SBlock b body) obs =
-                 let '(ok, rest, r) := judge_list_r st cc (fs ++ [b]) body obs in
-                 (ok, rest, match b with BTry => None | _ => r end)).
-    { intros st. cbn [judge_stmt_r].
-      assert (E : forall l o,
-                 (fix go (l : list stmt) (obs : list call) {struct l} : bool * list call * option xkind :=
-                    match l with
-                    | [] => (true, obs, None)
-                    | x :: l' =>
-                        let '(ok, rest, r) := judge_stmt_r st cc (fs ++ [b]) x obs in
-                        match r with
-                        | Some _ => (ok, rest, r)
-                        | None => let '(ok', rest', r') := go l' rest in (ok && ok', rest', r')
-                        end
-                    end) l o = judge_list_r st cc (fs ++ [b]) l o).
-      { induction l as [|x l IHl]; intros o; [reflexivity|]. cbn [judge_list_r].
-        destruct (judge_stmt_r st cc (fs ++ [b]) x o) as [[ok rest] r]. destruct r; [reflexivity|].
-        rewrite IHl. reflexivity. }
-      rewrite E. reflexivity. }
-    rewrite !BL.
-    assert (L : forall l fs0 o,
-               Forall (fun s => forall fs obs, readings_agree_stmt (cc_run cc) s = true ->
-                         judge_stmt_r true cc fs s obs = judge_stmt_r false cc fs s obs) l ->
-               forallb (readings_agree_stmt (cc_run cc)) l = true ->
-               judge_list_r true cc fs0 l o = judge_list_r false cc fs0 l o).
-    { induction l as [|x l IHl]; intros fs0 o F GL; [reflexivity|].
-      inversion F as [|? ? Hx Hl]; subst. cbn [forallb] in GL. apply andb_true_iff in GL as [Gx GL].
-      cbn [judge_list_r]. rewrite (Hx fs0 o Gx).
-      destruct (judge_stmt_r false cc fs0 x o) as [[ok rest] r]. destruct r; [reflexivity|].
-      rewrite (IHl fs0 rest Hl GL). reflexivity. }
-    rewrite (L body (fs ++ [b]) obs IH G). reflexivity.
-Qed.
-
-Lemma judge_list_readings cc : forall l fs obs,
-  forallb (readings_agree_stmt (cc_run cc)) l = true ->
-  judge_list_r true cc fs l obs = judge_list_r false cc fs l obs.
-Proof.
-  induction l as [|x l IH]; intros fs obs G; [reflexivity|].
-  cbn [forallb] in G. apply andb_true_iff in G as [Gx G].
-  cbn [judge_list_r]. rewrite (judge_readings cc x fs obs Gx).
-  destruct (judge_stmt_r false cc fs x obs) as [[ok rest] r]. destruct r; [reflexivity|].
-  rewrite (IH fs rest G). reflexivity.
-Qed.
-
-Theorem program_meets_spec_strict cc prog :
-  readings_agree_prog cc prog = true ->
-  spec_ok_ctx cc prog (snd (fst (run_program cc prog))) (fst (fst (run_program cc prog)))
-              (snd (run_program cc prog)) = true.
-Proof.
-  intros G. pose proof (program_meets_spec cc prog) as H.
-  unfold spec_ok_ctx, spec_ok_ctx_r in *. unfold readings_agree_prog in G.
-  rewrite (judge_list_readings cc prog [] _ G). exact H.
 Qed.
